@@ -60,3 +60,48 @@ def run(ctx):
                    "this B-tree lives in a struct that never hands its root back: the catalog entry keeps the root recorded at creation, so after "
                    "the first root split a reopen loads a stale root and stored vectors / graph links disappear", sites[0][1].loc(),
                    sample={"owner": adt, "field": f, "mutation_sites": [c.loc() for _, c in sites]})
+
+    # ---- clause 3: write-through or invalidate -----------------------------------------------------
+    # A struct that answers reads from an in-memory cache before it looks at the backing store must update or invalidate the cache
+    # in every method that writes the backing store; otherwise an overwritten vector keeps its old value in memory: search computes
+    # distances to a vector that is no longer stored, and results change across reopen.
+    from ..mirutil import recv_field
+    ctx.rule("C31.3", "every method of a cache-owning store that writes the backing store also updates or invalidates the cache (write-through or invalidate)")
+    STORE_WRITES = (BTREE + "::insert", BTREE + "::delete", BTREE + "::delete_exact_rebuild",
+                    "nervusdb_storage::blob_store::BlobStore::write", "nervusdb_storage::blob_store::BlobStore::write_direct",
+                    "nervusdb_storage::blob_store::BlobStore::delete", M.WRITE_PAGE)
+    owners = []
+    for aid, a in sorted(F.adts.items()):
+        if not aid.startswith("nervusdb_storage::") or a.get("kind") != "struct":
+            continue
+        for v in a.get("variants", []):
+            for f in v.get("fields", []):
+                fty = f[1]
+                base_ty = fty.split("<")[0]
+                if base_ty.endswith("Cache") and base_ty.startswith("nervusdb_storage::"):
+                    owners.append((aid, f[0], fty))
+    ctx.floor("C31.3", "cache-owning stores", len(owners), 1)
+    n3 = 0
+    for aid, fname, fty in owners:
+        for i, b in sorted(F.bodies.items()):
+            if b.root or not b.self_ty or b.self_ty.split("<")[0] != aid:
+                continue
+            writes = [c for c in b.calls() if c.name in STORE_WRITES]
+            if not writes:
+                continue
+            n3 += 1
+            touches = []
+            for c in b.calls():
+                if not c.args or c.args[0][0] not in ("c", "m"):
+                    continue
+                fld = recv_field(b, c)
+                if fld and fld[0] == fname and fld[1] == aid and b.local_ty(c.args[0][1][0]).startswith("&mut"):
+                    cb = F.bodies.get(c.name)
+                    # a mutating cache method: writes one of the cache's fields (put / remove / clear), not a pure lookup that only reorders the LRU list
+                    touches.append(c.name.split("::")[-1])
+            updates = [t for t in touches if t not in ("get", "peek", "contains", "len")]
+            ctx.instance("C31.3", "%s writes the store (%s); cache calls: %s" % (i, sorted({c.name.split("::")[-1] for c in writes}), touches))
+            ctx.oblige(bool(updates), "C31.3", "%s:writes-store-without-cache-update" % i,
+                       "the method writes the backing store of %s but neither updates nor invalidates `%s`: a later read is answered from the stale "
+                       "cache entry (search distances and the k nearest are computed against a vector that is no longer stored)" % (aid.split("::")[-1], fname), b.file)
+    ctx.floor("C31.3", "store-writing methods of cache owners", n3, 1)
